@@ -1,9 +1,11 @@
 #!/usr/bin/env bash
-# tools/seed_matrix.sh — run every stored seeded defect against the check of its property (quick tier).
+# tools/seed_matrix.sh [name-glob] — run every stored seeded defect against the check of its property
+# (quick tier), or against the checks named in meta.json "run_checks" when the defect lies outside
+# the package its property is about.
 cd /verif
-for d in seeded/*/; do
+for d in seeded/${1:-*}/; do
   name=$(basename "$d")
-  id=$(python3 -c "import json;print(json.load(open('$d/meta.json'))['property'])")
-  echo "##### seed $name (property $id)"
-  tools/try_seed.sh "$name" "$id" 2>&1 | grep -aE "^(VIOLATION|C[0-9]+ |patch|KNOWN)" | cut -c1-260 | head -6
+  ids=$(python3 -c "import json;m=json.load(open('$d/meta.json'));print(' '.join(m.get('run_checks',[m['property']])))")
+  echo "##### seed $name (checks $ids)"
+  tools/try_seed.sh "$name" $ids 2>&1 | grep -aE "^(VIOLATION|C[0-9]+ |patch|KNOWN)" | cut -c1-260 | head -6
 done
